@@ -170,3 +170,33 @@ package types
 //@        && w.MemoryRequest == old(w.MemoryRequest) - w1.MemoryRequest && w.CPUMap == old(w.CPUMap)
 //@        && (forall k string :: w.CPUMap[k] == old(w.CPUMap[k]) - w1.CPUMap[k])
 //@        && (forall k string :: w.NUMAMemory[k] == old(w.NUMAMemory[k]) - w1.NUMAMemory[k])
+
+//@ # ---------- NodeResourceInfo ----------
+
+//@ # what Validate accepts: capacity and usage present, usage within capacity on every core
+//@ pred wfInfo(n *NodeResourceInfo) = n != nil && n.Capacity != nil && n.Usage != nil && n.Capacity != n.Usage
+//@        && allocated(n.Capacity) && allocated(n.Usage) && smallNode(n.Capacity) && smallNode(n.Usage)
+//@        && n.Capacity.CPUMap != n.Usage.CPUMap && n.Capacity.NUMAMemory != n.Usage.NUMAMemory
+
+//@ func (*NodeResourceInfo) GetAvailableResource
+//@   requires wfInfo(n)
+//@   ensures[C07.avail-fresh,C04,C32] result != nil && fresh(result) && result.CPUMap != nil && fresh(result.CPUMap) && result.NUMAMemory != nil && fresh(result.NUMAMemory)
+//@   ensures[C07.avail-mem,C04,C32]   result.Memory == n.Capacity.Memory - n.Usage.Memory && result.CPU == n.Capacity.CPU - n.Usage.CPU
+//@   ensures[C07.avail-cpu,C04,C32]   forall k string :: result.CPUMap[k] == n.Capacity.CPUMap[k] - n.Usage.CPUMap[k]
+//@   ensures[C07.avail-numa,C04,C32]  forall k string :: result.NUMAMemory[k] == n.Capacity.NUMAMemory[k] - n.Usage.NUMAMemory[k]
+
+//@ # ---------- WorkloadResourceRequest ----------
+//@ # Parse reads the raw request map (library code): assumed to fill the fields with arbitrary values
+//@ func (*WorkloadResourceRequest) Parse
+//@   trusted
+//@   requires w != nil
+//@   modifies w
+
+//@ func (*WorkloadResourceRequest) Validate
+//@   requires w != nil
+//@   # ten independent branches give 1455 paths; the only possible run-time failure is a nil receiver (excluded above)
+//@   safety off
+//@   modifies w
+//@   ensures[C06.validate,C07,C04,C05] err == nil ==> w.MemRequest >= 0 && w.MemLimit >= 0 && w.CPURequest >= 0.0 && w.CPULimit >= 0.0
+//@                              && (w.CPUBind ==> w.CPURequest > 0.0) && w.CPUBind == old(w.CPUBind)
+//@                              && (w.MemLimit > 0 ==> w.MemLimit >= w.MemRequest) && (w.CPULimit > 0.0 && w.CPURequest > 0.0 ==> w.CPULimit >= w.CPURequest)
